@@ -55,6 +55,18 @@ def generate(ctx):
             names = [nm for nm, _ in schema]
             nf, labels, label_kind = fo.make_frame(rng, inp)
             rows = fo.rows_rm(inp["ca"])
+            if i % 7 == 3 and len(rows) >= 2:
+                # a frame that has been through a nested dropna / a flat view before and whose rows were then replaced IN PLACE by
+                # tables of other lengths (the content below is the content AFTER that): what earlier reads may have remembered
+                # (lengths, offsets, ordinals) must not matter
+                attempt(lambda: nf.dropna(on_nested="n"))
+                attempt(lambda: nf["n"].nest.to_flat())
+                arr_live = nf["n"].array
+                j0, j1 = 0, len(rows) - 1
+                k0, k1 = len(rows[j0] or []), len(rows[j1] or [])
+                arr_live[j0] = {nm: [gen.gen_value(rng, t, 0.2) for _ in range(k1 + 1)] for nm, t in schema}
+                arr_live[j1] = {nm: [gen.gen_value(rng, t, 0.2) for _ in range(k0)] for nm, t in schema} if k0 else None
+                rows = fo.rows_rm(nf["n"].array.chunked_array)
             kind = ["on_nested", "subset", "both", "subset", "on_nested", "base", "base_subset", "conflict", "two_layers", "unknown_layer"][i % 10]
             how = rng.choice(["any", "all", None, None])
             thresh = rng.choice([0, 1, 2, len(names), len(names) + 1]) if (how is None and rng.random() < 0.5) else None
